@@ -13,9 +13,15 @@ import copy
 
 REGEX_POOL = ['a.*', '.*b$', '[0-9]+']
 STR_POOL = ['a', 'ab', 'b', 'xb', '7', '', 'abc', 'q']
-# user classes: 0 = A, 1 = B(A), 2 = C, 3 = P(MaybePartial)
-SUBCLASS = [[0, 0], [1, 1], [2, 2], [3, 3], [1, 0]]
+# user classes: 0 = A, 1 = B(A), 2 = C, 3 = P(MaybePartial), 4 = S (a pg.Object with a nested pg.Object child)
+SUBCLASS = [[0, 0], [1, 1], [2, 2], [3, 3], [1, 0], [4, 4]]
 OBJ_POOL = [[0, 0, False], [0, 1, False], [1, 0, False], [2, 0, False], [3, 0, False], [3, 1, True]]
+# Instances of S are built by a script selected by the uid (see sym_object); the flag is the TRUE deep
+# partiality of the result (some required field, at any depth, is MISSING_VALUE):
+#   0: complete, built directly                 1: built complete with S.partial(), is_partial / sym_missing
+#   2: S.partial() without the required x          queried (memoised), then a required field of the nested
+#   3: as 1, then the nested field is restored     child's Dict (depth 2) set to MISSING through the child
+SYM_POOL = [[4, 0, False], [4, 1, True], [4, 2, True], [4, 3, False]]
 
 _CLS = None
 
@@ -60,8 +66,50 @@ def classes():
       def missing_values(self, flatten=True):
         return {'x': pg.MISSING_VALUE} if self.partial else {}
 
-    _CLS = [A, B, C, P]
+    T = pg.typing
+
+    @pg.members([('uid', T.Int()), ('w', T.Int()), ('d', T.Dict([('q', T.Int())]))])
+    class C03S2(pg.Object):
+      pass
+
+    @pg.members([('uid', T.Int()), ('x', T.Int()), ('c', T.Object(C03S2))])
+    class C03S(pg.Object):
+      pass
+
+    _CLS = [A, B, C, P, C03S, C03S2]
   return _CLS
+
+
+def sym_object(uid):
+  """A fresh instance of the symbolic class S built by script `uid` (see SYM_POOL)."""
+  import pyglove as pg
+  S, S2 = classes()[4], classes()[5]
+  if uid == 0:
+    return S(uid=0, x=1, c=S2(uid=0, w=1, d={'q': 1}))
+  if uid == 2:
+    return S.partial(uid=2, c=S2(uid=2, w=1, d={'q': 1}))
+  s = S.partial(uid=uid, x=1, c=S2.partial(uid=uid, w=1, d={'q': 1}))
+  _ = s.is_partial                 # derived state is queried (and memoised) while the object is complete
+  _ = s.sym_missing()
+  s.c.d.rebind(q=pg.MISSING_VALUE)
+  if uid == 3:
+    s.c.d.rebind(q=5)
+  return s
+
+
+def deep_missing(x):
+  """Ground truth of partiality: some member, at any depth, is MISSING_VALUE (walks the raw members,
+  never the memoised `sym_missing` / `is_partial`)."""
+  import pyglove as pg
+  if pg.MISSING_VALUE == x:
+    return True
+  if isinstance(x, pg.Symbolic):
+    return any(deep_missing(v) for _, v in x.sym_items())
+  if isinstance(x, (list, tuple)):
+    return any(deep_missing(v) for v in x)
+  if isinstance(x, dict):
+    return any(deep_missing(v) for v in x.values())
+  return bool(getattr(x, 'partial', False))
 
 
 # ------------------------------------------------------------------------------------------
@@ -90,6 +138,8 @@ def to_py(v):
   if t == 'd':
     return {k: to_py(x) for k, x in v[1]}
   if t == 'o':
+    if v[1] == 4:
+      return sym_object(v[2])
     return classes()[v[1]](v[2], v[3])
   raise ValueError(v)
 
@@ -118,7 +168,9 @@ def from_py(x):
     items = x.sym_items() if hasattr(x, 'sym_items') else x.items()
     return ['d', [[k if isinstance(k, str) else repr(k), from_py(y)] for k, y in items]]
   cl = classes()
-  for i, c in enumerate(cl):
+  if type(x) is cl[4]:
+    return ['o', 4, x.sym_getattr('uid'), deep_missing(x)]
+  for i, c in enumerate(cl[:4]):
     if type(x) is c:
       return ['o', i, x.uid, bool(x.partial)]
   return ['?', type(x).__name__]
@@ -362,17 +414,29 @@ class SpecGen:
     return d
 
   def bounds(self, a, b):
+    """Range bounds; zero (falsy) bounds and lo == hi are over-represented on purpose."""
     r = self.r
     lo = r.randint(a, b) if r.chance(0.5) else None
     hi = r.randint(a, b) if r.chance(0.5) else None
+    if lo is not None and r.chance(0.2):
+      lo = 0
+    if hi is not None and r.chance(0.2):
+      hi = 0
+    if lo is not None and hi is None and r.chance(0.1):
+      hi = lo
     if lo is not None and hi is not None and lo > hi:
       lo, hi = hi, lo
     return lo, hi
 
   def sizes(self):
+    """Size bounds; max_size == 0, size == 0 and min == max are over-represented on purpose."""
     r = self.r
     mn = r.randint(0, 3) if r.chance(0.5) else None
     mx = r.randint(0, 4) if r.chance(0.5) else None
+    if mx is not None and r.chance(0.25):
+      mx = 0
+    if mn is not None and r.chance(0.15):
+      mx = mn
     if mn is not None and mx is not None and mn > mx:
       mn, mx = mx, mn
     return mn, mx
@@ -426,7 +490,7 @@ class SpecGen:
     if k == 'enum':
       return copy.deepcopy(r.choice(d['vals']))
     if k == 'obj':
-      pool = [o for o in OBJ_POOL if [o[0], d['cls']] in SUBCLASS and not o[2]]
+      pool = [o for o in OBJ_POOL + SYM_POOL if [o[0], d['cls']] in SUBCLASS and not o[2]]
       return ['o'] + r.choice(pool)
     if k == 'list':
       mn = d.get('mn') or 0
@@ -494,7 +558,7 @@ class SpecGen:
     elif k in ('list', 'tuple') and 'elems' not in d:
       tag = 'l' if k == 'list' else 't'
       mn, mx = d.get('mn') or 0, d.get('mx')
-      for n in sorted({0, mn - 1, mn, mn + 1, (mx if mx is not None else mn + 1), (mx + 1 if mx is not None else mn + 2)}):
+      for n in sorted({0, mn - 1, mn, mn + 1, (mx if mx is not None else mn + 1), (mx + 1 if mx is not None else mn + 2), 3}):
         if n >= 0:
           out.append([tag, [self.valid(d['elem']) for _ in range(n)]])
       n = max(mn, 1)
@@ -610,8 +674,8 @@ class SpecGen:
     k = d['k']
     if k == 'int':
       f = r.choice(['lo', 'hi'])
-      d[f] = None if (d.get(f) is not None and r.chance(0.3)) else (
-          (d[f] + r.choice([-2, -1, 1, 2])) if d.get(f) is not None else r.randint(-2, 6))
+      d[f] = None if (d.get(f) is not None and r.chance(0.3)) else (0 if r.chance(0.15) else (
+          (d[f] + r.choice([-2, -1, 1, 2])) if d.get(f) is not None else r.randint(-2, 6)))
       if d['lo'] is not None and d['hi'] is not None and d['lo'] > d['hi']:
         d['hi'] = d['lo']
     elif k == 'float':
@@ -645,14 +709,20 @@ class SpecGen:
       f = r.choice(['mn', 'mx'])
       if d.get(f) is not None and r.chance(0.3):
         d[f] = None
+      elif r.chance(0.2):
+        d[f] = 0
       else:
         d[f] = max(0, (d[f] if d.get(f) is not None else r.randint(0, 3)) + r.choice([-1, 1, 1, 2]))
       if d.get('mn') is not None and d.get('mx') is not None and d['mn'] > d['mx']:
         d['mx'] = d['mn']
       if k == 'tuple':
-        if r.chance(0.15):
-          # variable -> fixed
+        if r.chance(0.3):
+          # variable -> fixed; the length is steered to the variable tuple's own bounds (just outside / inside)
           n = r.randint(1, 3)
+          if d.get('mx') is not None and r.chance(0.5):
+            n = max(1, d['mx'] + r.choice([1, 1, 0]))
+          elif d.get('mn') and r.chance(0.4):
+            n = max(1, d['mn'] - 1)
           e = d.pop('elem')
           d.pop('mn', None)
           d.pop('mx', None)
@@ -730,6 +800,53 @@ class SpecGen:
         d.pop('fz', None)
       else:
         d['d'] = v
+
+
+def frozen_pair(g):
+  """A (child, base) pair of specs that are BOTH frozen, mostly over an Enum base: the child is an
+  Int / Str / Float / Enum frozen to one candidate of the base's value list (the same as the base's
+  frozen value or another one); sometimes both are wrapped as the same field of a Dict (schema
+  inheritance)."""
+  r = g.r
+  pool = r.choice(ENUM_POOLS[:3])
+  vals = copy.deepcopy(r.sample(pool, r.randint(2, len(pool))))
+  x = copy.deepcopy(r.choice(vals))
+  y = copy.deepcopy(r.choice(vals)) if r.chance(0.75) else copy.deepcopy(r.choice(pool))
+  base = {'k': 'enum', 'vals': vals, 'pool': ENUM_POOLS.index(pool), 'n': 0, 'd': x, 'fz': True}
+  if r.chance(0.15):
+    base = {'k': {'i': 'int', 's': 'str', 'f': 'float', 'b': 'bool'}[x[0]], 'n': 0, 'd': x, 'fz': True, 'lo': None, 'hi': None, 'rx': None}
+  kind = {'i': 'int', 's': 'str', 'f': 'float', 'b': 'bool'}.get(y[0], 'int')
+  c = r.below(3)
+  if c == 0:
+    child = {'k': 'enum', 'vals': copy.deepcopy(r.sample(vals, r.randint(1, len(vals)))), 'pool': ENUM_POOLS.index(pool), 'n': 0}
+    if y not in child['vals']:
+      child['vals'].append(copy.deepcopy(y))
+  else:
+    child = {'k': kind, 'n': 0, 'lo': None, 'hi': None, 'rx': None}
+  child['d'] = y
+  child['fz'] = True
+  if r.chance(0.3):
+    child.pop('fz')
+  if r.chance(0.3):
+    child = {'k': 'dict', 'fields': [[['c', 'x'], child]], 'n': 0}
+    base = {'k': 'dict', 'fields': [[['c', 'x'], base]], 'n': 0}
+  return child, base
+
+
+def tuple_pair(g):
+  """A (child, base) pair: a fixed-length tuple over a variable-length one, the length steered to the
+  base's bounds (min - 1, min, max, max + 1), element specs related."""
+  r = g.r
+  elem = g.spec(0)
+  mn = r.choice([None, 0, 1, 2])
+  mx = r.choice([None, 1, 2, 3])
+  if mn is not None and mx is not None and mn >= mx:
+    mx = mn + 1
+  base = {'k': 'tuple', 'elem': elem, 'mn': mn, 'mx': mx, 'n': 0}
+  cands = [n for n in ((mn or 0) - 1, (mn or 0), mx, (mx + 1) if mx is not None else None, r.randint(1, 3)) if n is not None and n >= 1]
+  n = r.choice(cands)
+  child = {'k': 'tuple', 'elems': [g.mutate(elem) if r.chance(0.3) else copy.deepcopy(elem) for _ in range(n)], 'n': 0}
+  return child, base
 
 
 def to_num(b):
